@@ -306,6 +306,21 @@ def weave_item(hdr, subs, stats):
             pos = i + len(new)
         log.append({"rule": d["rule"], "before": old, "after": new, "count": n})
     for d in subs:
+        if d["op"] == "replaceblock":
+            tk = tokenize(ot.s)
+            a, b = _tok_find(tk, d["anchor"], d["nth"], what)
+            j = b + 1
+            while j < len(tk) and tk[j].text != "{":
+                j += 1
+            if j >= len(tk):
+                raise WeaveError(f"{what}: no block after `{d['anchor']}`")
+            c = match_close(tk, j)
+            dropped = ot.s[tk[j].start:tk[c].end]
+            ot.replace(tk[j].start, tk[c].end, d["text"].strip())
+            log.append({"rule": "DROP block (not verified; replaced by an arbitrary result)",
+                        "before": f"{dropped.count(chr(10)) + 1} lines after `{d['anchor']}`",
+                        "after": d["text"].strip()})
+    for d in subs:
         if d["op"] == "truncate":
             n = _truncate_casts(ot, set(d["types"]))
             log.append({"rule": "R8 mark integer `as` casts as truncating (Rust semantics)",
@@ -676,6 +691,12 @@ def parse_template(path, seen=None):
                         subs.append(cur)
                     elif op in ("loopstart", "loopend", "beforeloop", "afterloop"):
                         cur = {"op": op, "n": int(rest), "text": ""}
+                        subs.append(cur)
+                    elif op == "replaceblock":
+                        mm = re.match(r"(?:nth\s+(\d+)\s+)?`(.*)`\s*$", rest)
+                        if not mm:
+                            raise WeaveError(f"{path}:{i+1}: bad replaceblock directive")
+                        cur = {"op": "replaceblock", "anchor": mm.group(2), "text": "", "nth": int(mm.group(1) or 1)}
                         subs.append(cur)
                     elif op in ("bodystart", "bodyend"):
                         cur = {"op": op, "text": ""}
